@@ -7,7 +7,7 @@ from .. import pyloops as PL
 
 PID = "C14"
 TITLE = "Procedural generators give valid meshes of the promised shape, all parameters"
-LEAN_MODULES = ["Mouette.Props.C14", "Mouette.Props.C14NoUnused", "Mouette.Props.C14Oriented", "Mouette.Props.C14Sphere", "Mouette.Props.C14Cylinder", "Mouette.Props.C14Geom"]
+LEAN_MODULES = ["Mouette.Props.C14", "Mouette.Props.C14NoUnused", "Mouette.Props.C14Oriented", "Mouette.Props.C14Sphere", "Mouette.Props.C14Cylinder", "Mouette.Props.C14Rings", "Mouette.Props.C14Geom"]
 
 # ------------------------------------------------------------------------------------------------
 # translated fragments
@@ -521,7 +521,8 @@ REQUIRED_THEOREMS = ["tetrahedron_closed_oriented", "icosahedron_closed_oriented
                      "torusFaces_eq", "torus_quads_oriented", "torus_quads_closed", "torus_tris_oriented", "torus_tris_closed",
                      "torus_quad_sides_nodup", "torus_quads_dirEdges_count", "unit_gridFaces_eq", "unit_grid_quads_oriented",
                      "unit_grid_tris_oriented", "sphere_uvFaces_eq", "sphere_oriented", "sphere_closed",
-                     "cylinderFaces_eq", "cylinder_oriented", "cylinder_closed", "cylinder_open_border"]
+                     "cylinderFaces_eq", "cylinder_oriented", "cylinder_closed", "cylinder_open_border",
+                     "ringFaces_mem", "ring_oriented", "ring_border", "flat_ringFaces_eq", "flat_ring_oriented", "flat_ring_border"]
 TRUSTED = [
     "Lean 4.33.0 kernel; axioms ⊆ {propext, Classical.choice, Quot.sound}",
     "translator vlib/pyloops.py + vlib/props/c14.py (Python ast -> Lean terms for loop nests and literal tables); it is itself "
@@ -539,7 +540,7 @@ MANIFEST = {
                    "re-checked against them: literal tables (tetrahedron, hexahedron x2, icosahedron, triangle, quad) are closed / consistently "
                    "oriented / no unused vertex / no repeated face / chi by kernel evaluation; for ALL resolutions (equal or not) of unit_grid, "
                    "torus, sphere_uv, cylinder, ring, flat_ring (and unit_triangle for nu>=nv): vertex and face counts equal the documented "
-                   "functions, every face index is in range and no vertex is unused (torus, unit_grid: faces have distinct vertices; torus: every directed edge in at most one face and its opposite in a neighbouring face = closed consistently oriented, quads and triangles; unit_grid: consistently oriented; sphere_uv (n_lat>=1, n_long>=3): closed and consistently oriented; cylinder (N>=3): consistently oriented, closed with caps, exactly the 2N rim edges unmatched without); hexahedron_4pts forwards its switches by name. The translator is validated "
+                   "functions, every face index is in range and no vertex is unused (torus, unit_grid: faces have distinct vertices; torus: every directed edge in at most one face and its opposite in a neighbouring face = closed consistently oriented, quads and triangles; unit_grid: consistently oriented; sphere_uv (n_lat>=1, n_long>=3): closed and consistently oriented; cylinder (N>=3): consistently oriented, closed with caps, exactly the 2N rim edges unmatched without; ring / flat_ring: consistently oriented fans whose only unmatched edges are the rim (and end spokes)); hexahedron_4pts forwards its switches by name. The translator is validated "
                    "each run against the implementation's returned face lists; manifoldness/topology of the parametric families, geometry "
                    "and the non-translated generators (icosphere, fibonacci, dual, octa/dodecahedron) are oracle-checked on a parameter box (partial)."),
     "level_note": ("Trusted: Lean kernel + standard axioms; the ast translator (validated by exact face-list comparison on the box each run); "
